@@ -39,6 +39,11 @@ type dirResult struct {
 	rerr      error
 	werrs     []string
 	reads     int
+	// decided: the reader saw a delivered byte that differs from the written byte at that offset, or more bytes than were
+	// ever written - the verdict for this direction is final; abort() then closes the link so that the writer (blocked on a
+	// reader that stopped) returns instead of running into the watchdog
+	decided bool
+	abort   func()
 }
 
 func planDir(rng *rand.Rand, i, k int) dirPlan {
@@ -146,13 +151,21 @@ func pump(w io.Writer, r io.Reader, closeWrite func(), plan dirPlan, wg *sync.Wa
 				out.rerr = fmt.Errorf("Read returned n=%d for a %d-byte buffer", n, sz)
 				return
 			}
+			at := len(out.got)
 			out.got = append(out.got, buf[:n]...)
-			if err != nil {
+			if len(out.got) > len(out.want) || !bytes.Equal(out.got[at:], out.want[at:len(out.got)]) {
+				out.decided = true
+				if err == nil {
+					err = fmt.Errorf("reader stopped: delivered bytes differ from the written bytes")
+				}
 				out.rerr = err
+				if out.abort != nil {
+					out.abort()
+				}
 				return
 			}
-			if len(out.got) > len(out.want)+4096 {
-				out.rerr = fmt.Errorf("reader delivered more than was ever written")
+			if err != nil {
+				out.rerr = err
 				return
 			}
 		}
@@ -163,7 +176,7 @@ func judgeStream(run *core.Run, name, dir string, plan dirPlan, res *dirResult, 
 	reason := ""
 	d := firstDiff(res.want, res.got)
 	switch {
-	case len(res.werrs) > 0:
+	case len(res.werrs) > 0 && !res.decided:
 		reason = "write-failed"
 	case d >= 0 && d < len(res.got) && d < len(res.want):
 		reason = "different-byte"
@@ -229,6 +242,7 @@ func streamCase(run *core.Run, name string, i int) {
 	}
 	var wg sync.WaitGroup
 	var ab, ba dirResult
+	ab.abort, ba.abort = pair.close, pair.close
 	pump(pair.HA.EC, pair.HB.EC, pair.CA.CloseWrite, pa, &wg, &ab)
 	pump(pair.HB.EC, pair.HA.EC, pair.CB.CloseWrite, pb, &wg, &ba)
 	if !waitWG(&wg, caseWatchdog) {
@@ -237,8 +251,10 @@ func streamCase(run *core.Run, name string, i int) {
 		return
 	}
 	run.Eval(1)
-	ok1 := judgeStream(run, name, "A->B", pa, &ab, map[string]any{"keys": []string{ids[0].Name, ids[1].Name}})
-	ok2 := judgeStream(run, name, "B->A", pb, &ba, map[string]any{"keys": []string{ids[0].Name, ids[1].Name}})
+	// a direction whose verdict was final closed the link: the other direction is then cut short and not judged
+	ok1 := (ba.decided && !ab.decided) || judgeStream(run, name, "A->B", pa, &ab, map[string]any{"keys": []string{ids[0].Name, ids[1].Name}})
+	ok2 := (ab.decided && !ba.decided) || judgeStream(run, name, "B->A", pb, &ba, map[string]any{"keys": []string{ids[0].Name, ids[1].Name}})
+	ok1, ok2 = ok1 && !ba.decided, ok2 && !ab.decided
 	if ok1 && ok2 && pa.Total+pb.Total > 0 {
 		run.Distinct(fmt.Sprintf("S/%v/%v/%s/%d|%v/%v/%s/%d", pa.Writes, pa.Reads, pa.Seg, pa.Cap, pb.Writes, pb.Reads, pb.Seg, pb.Cap))
 	}
@@ -304,6 +320,8 @@ func streamAtkCase(run *core.Run, name string, i int) {
 	}
 	var wg sync.WaitGroup
 	var ab, ba dirResult
+	ab.abort = func() { ca.Close(); cm.Close() }
+	ba.abort = ab.abort
 	pump(ha.EC, m, ca.CloseWrite, pa, &wg, &ab)
 	pump(m, ha.EC, cm.CloseWrite, pb, &wg, &ba)
 	if !waitWG(&wg, caseWatchdog) {
@@ -312,8 +330,9 @@ func streamAtkCase(run *core.Run, name string, i int) {
 	}
 	run.Eval(1)
 	run.Count("stream_cases_against_independent_codec", 1)
-	ok1 := judgeStream(run, name, "real->codec", pa, &ab, nil)
-	ok2 := judgeStream(run, name, "codec->real", pb, &ba, nil)
+	ok1 := (ba.decided && !ab.decided) || judgeStream(run, name, "real->codec", pa, &ab, nil)
+	ok2 := (ab.decided && !ba.decided) || judgeStream(run, name, "codec->real", pb, &ba, nil)
+	ok1, ok2 = ok1 && !ba.decided, ok2 && !ab.decided
 	if ok1 && ok2 && pa.Total+pb.Total > 0 {
 		run.Distinct(fmt.Sprintf("SM/%v/%v/%s|%v/%v/%s", pa.Writes, pa.Reads, pa.Seg, pb.Writes, pb.Reads, pb.Seg))
 	}
